@@ -66,6 +66,85 @@ fn try_decode(chk: &Check, ctr: &Ctr, codec: Codec, data: &[u8], site: &str) {
     }
 }
 
+/// An input that never ends: `prefix`, then `pattern` repeated for ever (in 64 KiB segments). Counts what the
+/// decoder has taken. A decoder that keeps buffering such a field exhausts memory and the process is killed.
+struct EndlessStream {
+    prefix: Vec<u8>,
+    pattern: Vec<u8>,
+    phase: usize,
+    taken: Arc<AtomicU64>,
+    cap: u64,
+}
+
+impl tokio::io::AsyncRead for EndlessStream {
+    fn poll_read(mut self: std::pin::Pin<&mut Self>, _cx: &mut std::task::Context<'_>, buf: &mut tokio::io::ReadBuf<'_>) -> std::task::Poll<std::io::Result<()>> {
+        if !self.prefix.is_empty() {
+            let n = self.prefix.len().min(buf.remaining());
+            let rest = self.prefix.split_off(n);
+            buf.put_slice(&self.prefix);
+            self.prefix = rest;
+            self.taken.fetch_add(n as u64, Ordering::Relaxed);
+            return std::task::Poll::Ready(Ok(()));
+        }
+        if self.taken.load(Ordering::Relaxed) >= self.cap {
+            // the harness gives up here (the real peer would not): end of stream
+            return std::task::Poll::Ready(Ok(()));
+        }
+        let n = buf.remaining().min(65536);
+        for _ in 0..n {
+            let b = self.pattern[self.phase];
+            self.phase = (self.phase + 1) % self.pattern.len();
+            buf.put_slice(&[b]);
+        }
+        self.taken.fetch_add(n as u64, Ordering::Relaxed);
+        std::task::Poll::Ready(Ok(()))
+    }
+}
+
+impl tokio::io::AsyncWrite for EndlessStream {
+    fn poll_write(self: std::pin::Pin<&mut Self>, _cx: &mut std::task::Context<'_>, buf: &[u8]) -> std::task::Poll<std::io::Result<usize>> {
+        std::task::Poll::Ready(Ok(buf.len()))
+    }
+    fn poll_flush(self: std::pin::Pin<&mut Self>, _cx: &mut std::task::Context<'_>) -> std::task::Poll<std::io::Result<()>> {
+        std::task::Poll::Ready(Ok(()))
+    }
+    fn poll_shutdown(self: std::pin::Pin<&mut Self>, _cx: &mut std::task::Context<'_>) -> std::task::Poll<std::io::Result<()>> {
+        std::task::Poll::Ready(Ok(()))
+    }
+}
+
+/// bytes the decoder took from a never-ending input before it returned (Ok or Err)
+fn decode_endless(codec: Codec, prefix: &[u8], pattern: &[u8], cap: u64) -> Result<u64, String> {
+    use crate::common::http::{HttpRequest, HttpResponse};
+    use crate::common::socks::{NoAuth, PasswordAuth, SocksRequest, SocksResponse};
+    let taken = Arc::new(AtomicU64::new(0));
+    let stream = EndlessStream { prefix: prefix.to_vec(), pattern: pattern.to_vec(), phase: 0, taken: taken.clone(), cap };
+    catch(|| {
+        let fut = async move {
+            let mut r = tokio::io::BufReader::new(stream);
+            match codec {
+                Codec::HttpReq => drop(HttpRequest::read_from(&mut r).await),
+                Codec::HttpResp => drop(HttpResponse::read_from(&mut r).await),
+                Codec::SocksReqNoAuth => drop(SocksRequest::read_from(&mut r, NoAuth).await),
+                Codec::SocksReqPwRequired => drop(SocksRequest::read_from(&mut r, PasswordAuth::required()).await),
+                Codec::SocksReqPwOptional => drop(SocksRequest::read_from(&mut r, PasswordAuth::optional()).await),
+                Codec::SocksResp => drop(SocksResponse::read_from(&mut r).await),
+                Codec::Frames => {
+                    let (mut fr, _fw) = crate::common::frames::frames_from_stream(0, r);
+                    for _ in 0..64 {
+                        if !matches!(fr.read().await, Ok(Some(_))) {
+                            break;
+                        }
+                    }
+                }
+            }
+        };
+        run_ready(fut, 10_000_000)
+    })
+    .and_then(|o| o.ok_or_else(|| "decoder did not terminate".to_string()))?;
+    Ok(taken.load(Ordering::Relaxed))
+}
+
 fn new_ctx(contexts: &Arc<Contexts>, client: ChunkStream) -> ContextRef {
     let ctx = run_ready(contexts.create_context("l".to_string(), "127.0.0.1:1".parse().unwrap()), 1000).expect("create_context");
     run_ready(
@@ -395,6 +474,55 @@ fn check() {
         samples.push(json!({"request_heads": heads.len(), "upstream_replies": replies.len(), "example_reply": "HTTP/1.1 200 OK\\r\\nSession-Id: 4294967296\\r\\n\\r\\n"}));
     }
 
+    // ---- F. fields that never end: every unbounded field of every stream decoder is fed a never-ending input;
+    //         the decoder must give up after a bounded amount (1 MiB), long before memory runs out
+    {
+        const LIMIT: u64 = 1 << 20;
+        let big: u64 = if chk.thorough() { 256 << 20 } else { 32 << 20 };
+        let many: u64 = 6 << 20;
+        let s4 = b"\x04\x01\x00\x50\x01\x02\x03\x04".to_vec();
+        let s4a = b"\x04\x01\x00\x50\x00\x00\x00\x01id\x00".to_vec();
+        let cases: Vec<(&str, Codec, Vec<u8>, Vec<u8>, u64)> = vec![
+            ("http-request:request-line", Codec::HttpReq, vec![], b"A".to_vec(), big),
+            ("http-request:request-line-after-method", Codec::HttpReq, b"CONNECT ".to_vec(), b"a".to_vec(), big),
+            ("http-request:header-line", Codec::HttpReq, b"CONNECT a:1 HTTP/1.1\r\n".to_vec(), b"A".to_vec(), big),
+            ("http-request:header-value", Codec::HttpReq, b"CONNECT a:1 HTTP/1.1\r\nX: ".to_vec(), b"v".to_vec(), big),
+            ("http-request:header-count", Codec::HttpReq, b"CONNECT a:1 HTTP/1.1\r\n".to_vec(), b"X-Filler-Header-Name-000000000000: yyyyyyyyyyyyyyyyyyyyyyyyyyyyyyyyyyyyyyyy\r\n".to_vec(), many),
+            ("http-response:status-line", Codec::HttpResp, vec![], b"A".to_vec(), big),
+            ("http-response:header-line", Codec::HttpResp, b"HTTP/1.1 200 OK\r\n".to_vec(), b"A".to_vec(), big),
+            ("http-response:header-count", Codec::HttpResp, b"HTTP/1.1 200 OK\r\n".to_vec(), b"X-Filler-Header-Name-000000000000: yyyyyyyyyyyyyyyyyyyyyyyyyyyyyyyyyyyyyyyy\r\n".to_vec(), many),
+            ("socks4:userid", Codec::SocksReqNoAuth, s4.clone(), b"u".to_vec(), big),
+            ("socks4a:domain", Codec::SocksReqNoAuth, s4a.clone(), b"d".to_vec(), big),
+            ("socks4:userid(auth-optional)", Codec::SocksReqPwOptional, s4.clone(), b"u".to_vec(), big),
+            // controls: these fields carry their own length and cannot grow
+            ("socks5:request(control)", Codec::SocksReqNoAuth, b"\x05\x01\x00\x05\x01\x00\x03\xff".to_vec(), b"h".to_vec(), big),
+            ("socks5:reply(control)", Codec::SocksResp, b"\x05\x00\x00\x03\xff".to_vec(), b"h".to_vec(), big),
+            ("rpfm:frames(control)", Codec::Frames, vec![], b"RPFM\x00\x00\x00\x01\x00\x08\xff\xff\x01\x01\x02\x03\x04\x00\x50\x00".to_vec(), big),
+        ];
+        let results: Vec<std::sync::Mutex<Option<Result<u64, String>>>> = cases.iter().map(|_| std::sync::Mutex::new(None)).collect();
+        par_for(cases.len(), |i| {
+            let (_, codec, prefix, pattern, cap) = &cases[i];
+            *results[i].lock().unwrap() = Some(decode_endless(*codec, prefix, pattern, *cap));
+        });
+        let mut table = vec![];
+        for (i, (name, codec, prefix, _pattern, cap)) in cases.iter().enumerate() {
+            ctr.cases.fetch_add(1, Ordering::Relaxed);
+            let r = results[i].lock().unwrap().take().unwrap();
+            match r {
+                Ok(taken) => {
+                    table.push(json!({"field": name, "bytes_taken_before_giving_up": taken}));
+                    ctr.outcomes.add(&(*codec, name.to_string(), taken >= *cap));
+                    if taken > LIMIT + prefix.len() as u64 + 65536 {
+                        let what = if taken >= *cap { format!("still buffering after {} MiB (the harness stopped feeding it)", cap >> 20) } else { format!("took {} bytes", taken) };
+                        chk.violation("decoder.unbounded-field", &format!("unbounded-buffering:{}", name), format!("{name}: fed a field that never ends, the decoder {what}; a peer can grow the proxy's memory until the process is killed"), json!({"field": name, "prefix": hex(prefix), "taken": taken}));
+                    }
+                }
+                Err(p) => chk.violation("decoder.unbounded-field", &format!("panic:{}", norm(&p)), format!("{name}: {p}"), json!({"field": name})),
+            }
+        }
+        samples.push(json!({"never_ending_fields": table}));
+    }
+
     let n = ctr.cases.load(Ordering::Relaxed);
     if n < 100_000 || ctr.outcomes.len() < 15 {
         machinery(format!("vacuous: cases={n} outcomes={}", ctr.outcomes.len()));
@@ -403,7 +531,7 @@ fn check() {
         "exhaustive": true,
         "states": ctr.outcomes.len(), "transitions": n, "traces_validated_against_impl": n,
         "evaluations": n, "distinct_nontrivial": ctr.outcomes.len(),
-        "rule": "inputs enumerated per decoder: every (id,total,seq) fragment header x 3 payload lengths + all sequences of 2 (thorough 3) datagrams over a 98-header alphabet; structured RPFM header/attribute grid (through the stream reader, from_buffer and the fragment layer) + every truncation; SOCKS-UDP header grid; all byte strings up to length 5 (thorough 6) over 12-symbol alphabets for the HTTP and SOCKS decoders (bare and behind a valid first line); every single-byte substitution/deletion of every valid message; h11c_handshake on 25 request heads; h11c_connect on 22 upstream replies x feature x channel. distinct = distinct (decoder, ok/err class) outcomes",
+        "rule": "inputs enumerated per decoder: every (id,total,seq) fragment header x 3 payload lengths + all sequences of 2 (thorough 3) datagrams over a 98-header alphabet; structured RPFM header/attribute grid (through the stream reader, from_buffer and the fragment layer) + every truncation; SOCKS-UDP header grid; all byte strings up to length 5 (thorough 6) over 12-symbol alphabets for the HTTP and SOCKS decoders (bare and behind a valid first line); every single-byte substitution/deletion of every valid message; h11c_handshake on 25 request heads; h11c_connect on 22 upstream replies x feature x channel; 11 unbounded fields (+3 length-prefixed controls) fed a never-ending input: the decoder must give up within 1 MiB. distinct = distinct (decoder, ok/err class) outcomes",
         "samples": samples,
     });
     chk.finish(
@@ -412,7 +540,7 @@ fn check() {
         vec![
             "a caught panic stands for a process abort (Cargo.toml: panic = 'abort' in both profiles); overflow checks are on as in the dev profile".into(),
             "process-level liveness (accept loops, fd exhaustion, stalls) is exercised by the real-socket checks (C14, and the E4 part of this property when built), not here".into(),
-            "memory exhaustion through unbounded read_line/read_until and the TPROXY listener are out of reach".into(),
+            "the TPROXY listener is out of reach; never-ending fields are cut off by the harness after 32 MiB (thorough 256 MiB)".into(),
         ],
     );
 }
